@@ -296,10 +296,8 @@ def main(argv=None):
         if k.startswith("exhaustive_of_"):
             size = int(k.split("_")[-1])
             done = len(sets.get("exhaustive_indices", ()))
-            cov["exhaustive_subspace"] = dict(
-                what="every event sequence over {retract, recover, print inside/outside, travel inside/outside} with matched "
-                     "cycles up to the length bound, E-only and firmware retraction", size=size, enumerated=done,
-                complete=(done == size))
+            cov["exhaustive_subspace"] = dict(what=getattr(mon, "exhaustive_what", "see rule"), size=size, enumerated=done,
+                                              complete=(done == size))
     if "states" in sets:
         cov["states"] = len(sets["states"])
         cov["state_list"] = sorted(sets["states"])[:64]
